@@ -1296,7 +1296,7 @@ out:
 /* ------------------------------------------------------------------ */
 /* one case */
 
-typedef struct opts_s { int steps_max, tmpl, variant, extra, end; } opts_t;
+typedef struct opts_s { int steps_max, tmpl, variant, extra, end, many; } opts_t;
 
 static void pre_close_sanity(rm_t *H) {
   size_t i;
@@ -1433,6 +1433,30 @@ static void run_case(uint64_t seed, int caseidx, const char *base, const opts_t 
     ldb_iter_destroy(it);
     vh_count("cases_with_pinned_compaction_before_close", 1);
   }
+  if (o->many > 0 || (o->many < 0 && vr_chance(&H->r, 140))) {
+    /* many surviving tables whose ranges all contain every key: each flush writes the first and the
+       last row plus a few others, and an iterator taken after each flush pins that flush's table, so
+       the inputs of the automatic compactions stay on disk until the close.  After the repair all
+       of them sit in level 0: far more than the 12 files level 0 ever holds in normal operation. */
+    ldb_iter_t *pins[24];
+    int nf = 14 + (int)vr_uniform(&H->r, 9), f, j, hot = pick_row(H);
+    for (f = 0; f < nf; f++) {
+      int extra = 1 + (int)vr_uniform(&H->r, 6);
+      do_put(H, 0, 8 + vr_uniform(&H->r, 200));
+      do_put(H, (int)H->m.nrows - 1, 8 + vr_uniform(&H->r, 200));
+      if (vr_chance(&H->r, 700)) do_put(H, hot, 8 + vr_uniform(&H->r, 400));
+      for (j = 0; j < extra; j++) {
+        if (vr_chance(&H->r, 800)) do_put(H, pick_row(H), 8 + vr_uniform(&H->r, 600));
+        else do_del(H, pick_row(H));
+      }
+      do_flush(H);
+      pins[f] = ldb_iterator(H->h.db, NULL);
+      ldb_iter_first(pins[f]);
+    }
+    ldb_verif_wait_idle(H->h.db);
+    for (f = 0; f < nf; f++) ldb_iter_destroy(pins[f]);
+    vh_count("cases_with_many_pinned_tables_before_close", 1);
+  }
   if (!dbh_layout(H->h.db, &l)) vh_fatal("case %d: leveldb.sstables not served", caseidx);
   {
     size_t i;
@@ -1492,7 +1516,7 @@ static void run_case(uint64_t seed, int caseidx, const char *base, const opts_t 
 int main(int argc, char **argv) {
   uint64_t seed = 1;
   int first = 0, count = 1, i;
-  opts_t o = {800, -1, -1, -1, -1};
+  opts_t o = {800, -1, -1, -1, -1, -1};
   const char *base = "/dev/shm/verif-repairmon";
   for (i = 1; i < argc; i++) {
     if (!strcmp(argv[i], "--seed") && i + 1 < argc) seed = strtoull(argv[++i], NULL, 0);
@@ -1503,6 +1527,7 @@ int main(int argc, char **argv) {
     else if (!strcmp(argv[i], "--variant") && i + 1 < argc) o.variant = atoi(argv[++i]);
     else if (!strcmp(argv[i], "--extra") && i + 1 < argc) o.extra = atoi(argv[++i]);
     else if (!strcmp(argv[i], "--end") && i + 1 < argc) o.end = !strcmp(argv[i + 1], "wal") ? 1 : 0, i++;
+    else if (!strcmp(argv[i], "--many") && i + 1 < argc) o.many = atoi(argv[++i]);
     else if (!strcmp(argv[i], "--template") && i + 1 < argc) {
       const char *t = argv[++i];
       o.tmpl = !strcmp(t, "none") ? 0 : !strcmp(t, "f4") ? T_F4 : !strcmp(t, "tomb") ? T_TOMB : !strcmp(t, "snap") ? T_SNAP :
